@@ -1,6 +1,6 @@
 (** Property C19 — scoring schemes: validation, scaling and equivalence.
     Only statements; every proof is [exact <lemma>]. *)
-From Corankco Require Import Prelude Scheme SchemeProof.
+From Corankco Require Import Prelude Scheme SchemeProof Rank KemenySpec CostTableProof.
 Local Open Scope Z_scope.
 
 (** accepted exactly when two lists of six non-negative numbers with the six relations *)
@@ -50,6 +50,13 @@ Theorem C19_mul_nonpositive : forall s k kz,
   (kz = 0 -> mul s k = Err ForbiddenAssociation) /\ (kz < 0 -> mul s k = Err NonRealPositive).
 Proof. exact mul_nonpositive. Qed.
 Print Assumptions C19_mul_nonpositive.
+
+(** ... and scales every Kemeny score by the same factor *)
+Theorem C19_kemeny_homogeneous : forall s s' k D c,
+  (forall i, Bv s' i * ONE = Bv s i * k) -> (forall i, Tv s' i * ONE = Tv s i * k) ->
+  kemeny_spec s' D c * ONE = kemeny_spec s D c * k.
+Proof. exact kemeny_spec_homogeneous. Qed.
+Print Assumptions C19_kemeny_homogeneous.
 
 (** equivalent exactly when one is a positive multiple of the other on both vectors *)
 Theorem C19_is_equivalent_iff : forall stop s1 s2,
